@@ -240,9 +240,10 @@ def diff_dumps(a, b, drop_final=False):
 class TwinHistory(RecHistory):
     """long, mostly growing history with short forks around the finalization horizon"""
 
-    def __init__(self, gen, maxreorg):
+    def __init__(self, gen, maxreorg, macro=False):
         RecHistory.__init__(self, gen)
         self.maxreorg = maxreorg
+        self.macro = macro     # emit "unsaved deep switch, then finalize" sequences (mode finy)
         self.best = "a0"       # the generator's idea of the active tip (only a heuristic)
 
     def chain_back(self, a, k):
@@ -254,12 +255,34 @@ class TwinHistory(RecHistory):
         g = self.g
         k = r.below(100)
         ids = sorted(g.alt, key=lambda a: int(a[1:]))
+        if self.macro and g.alt[self.best]["height"] > self.maxreorg + 6 and r.chance(1, 10):
+            # requested final block != actually finalized block: a fork next to the requested block (tip - maxreorg),
+            # then - without saving - a switch to a block forking below the requested block and back (re-dirties the
+            # active chain from there), then finalizeBlocks(): the final block is lowered to the lowest unsaved block
+            sib = g.honest_block(self.chain_back(self.best, self.maxreorg + 1), n_atv=0, n_vtb=0, empty_chance=(1, 1))
+            self.show(sib)
+            self.rec.append(("nosave",))
+            deep = g.honest_block(self.chain_back(self.best, r.range(self.maxreorg + 2, self.maxreorg + 4)),
+                                  n_atv=0, n_vtb=0, empty_chance=(1, 1))
+            self.show(deep)
+            self.on("set", deep)
+            self.on("set", self.best)
+            self.rec.append(("finnow",))
+            self.on("cmp", sib)
+            return
         if k < 50:
             a = g.honest_block(self.best)
             self.show(a, order="inorder" if r.chance(2, 3) else "random")
             self.on("set", a)
             self.on("payout", a)
             self.best = a
+            return
+        if k < 56 and r.chance(1, 2):
+            # a one-block fork hanging off the chain right around the requested final block (tip - maxreorg):
+            # siblings of the requested / of the actually finalized block
+            depth = r.range(self.maxreorg - 1, self.maxreorg + 2)
+            a = g.honest_block(self.chain_back(self.best, depth), n_atv=0, n_vtb=0, empty_chance=(1, 1))
+            self.show(a)
             return
         if k < 64:
             # fork from a block up to maxreorg+3 behind the tip: above, at and below the final block
@@ -305,9 +328,9 @@ class TwinHistory(RecHistory):
         self.on("payout", self.best)
 
 
-def gen_twin(rng, cfg, nsteps):
+def gen_twin(rng, cfg, nsteps, macro=False):
     g = StoreWorldGen(rng, cfg)
-    h = TwinHistory(g, cfg.get("alt_maxreorg", 8))
+    h = TwinHistory(g, cfg.get("alt_maxreorg", 8), macro=macro)
     for _ in range(nsteps):
         h.step()
     return g, h.rec
@@ -315,7 +338,10 @@ def gen_twin(rng, cfg, nsteps):
 
 def emit_twin(sc, ops, mode, tag, save_every=1, check_every=5, corr_every=0):
     """F = finalizing instance, N = never finalizing (cfg of N: see C09.py, N is created by `instn`).
-    mode: 'fin'    F is a plain instance: after every step saveTrees + public finalizeBlocks()
+    mode: 'finx'   F is a plain instance: public finalizeBlocks() after EVERY step, saveTrees only every
+                   `save_every` steps: unsaved blocks on the active chain lower the actually finalized block
+                   below the requested one
+          'fin'    F is a plain instance: after every step saveTrees + public finalizeBlocks()
           'loaded' F is a loaded instance (save+reload at the start): finalization runs automatically in
                    overrideTip; saveTrees after every `save_every` steps"""
     sc.add("inst N")
@@ -323,9 +349,39 @@ def emit_twin(sc, ops, mode, tag, save_every=1, check_every=5, corr_every=0):
     if mode == "loaded":
         sc.add("on F save")
         sc.add("on F reload")
+    saving = True
     for i, w in enumerate(ops, 1):
+        if w[0] == "nosave":
+            if mode == "finy":
+                sc.add("on F save")
+                saving = False
+            continue
+        if w[0] == "finnow":
+            if mode == "finy":
+                a = sc.add("on F adump", (tag, "pre", i))
+                sc.add("on F fin")
+                sc.add("on F adump", (tag, "post", i, a))
+                sc.add("on F paircheck N", (tag, "check", i))
+                saving = True
+            continue
         sc.add("on F pair N %s" % " ".join(w), (tag, "pair", i, w))
-        if i % save_every == 0:
+        if mode == "finy":
+            # saveTrees often, finalizeBlocks() only at the `finnow` markers (right after an unsaved deep switch)
+            if saving and i % save_every == 0:
+                sc.add("on F save")
+            if i % check_every == 0:
+                sc.add("on F paircheck N", (tag, "check", i))
+            continue
+        if mode == "finx":
+            if i % save_every == 0:
+                sc.add("on F save")
+            if corr_every and i % corr_every == 0:
+                a = sc.add("on F adump", (tag, "pre", i))
+                sc.add("on F fin")
+                sc.add("on F adump", (tag, "post", i, a))
+            else:
+                sc.add("on F fin")
+        elif i % save_every == 0:
             sc.add("on F save")
             if mode == "fin":
                 if corr_every and (i // save_every) % corr_every == 0:
@@ -337,7 +393,7 @@ def emit_twin(sc, ops, mode, tag, save_every=1, check_every=5, corr_every=0):
         if i % check_every == 0:
             sc.add("on F paircheck N", (tag, "check", i))
     sc.add("on F save")
-    if mode == "fin":
+    if mode in ("fin", "finx", "finy"):
         sc.add("on F fin")
     sc.add("on F paircheck N", (tag, "check", len(ops)))
     sc.add("on F dangling", (tag, "dangling"))
